@@ -564,13 +564,15 @@ package z
 
 // ---------------------------------------------------------------- btree.go: reopening (C16)
 //
+// (The data is whatever the file holds: no alignment of its length is assumed - t.data starts 8 bytes
+// into the buffer, so its length is never a multiple of the page size when the file's is.)
 // reinit rebuilds the allocator state of a reopened tree from the file contents alone:
 // the frontier (first page whose id word is zero) and the head of the free-page list
 // (the page that holds no node and that no other such page points to).
 // The same word as GcWord, with the index written out (reinit's clauses quantify over slot numbers, and
 // the solvers do better there without the opaque index function).
 //@ spec GcWordR(t *Tree, p uint64, w int) uint64 = gcU64(t.buffer.buf)[1+int(p)*512+w]
-//@ spec GcDataShape(t *Tree) bool = t != nil && GcPagesOK() && GcWfBuffer(t.buffer) && gcWfSlice(t.buffer.buf) && gcSliceAt(t.data, t.buffer.buf, int(t.buffer.padding)) && len(t.data) == int(t.buffer.offset-t.buffer.padding) && t.buffer.padding == 8 && len(t.data)%4096 == 0 && len(t.data) >= 8192 && len(t.data) < 1<<50
+//@ spec GcDataShape(t *Tree) bool = t != nil && GcPagesOK() && GcWfBuffer(t.buffer) && gcWfSlice(t.buffer.buf) && gcSliceAt(t.data, t.buffer.buf, int(t.buffer.padding)) && len(t.data) == int(t.buffer.offset-t.buffer.padding) && t.buffer.padding == 8 && len(t.data) >= 8192 && len(t.data) < 1<<50
 //@ spec GcFrontierAt(t *Tree, n uint64) bool = 1 <= n && n < 1<<40 && int(n)*4096 <= len(t.data) && (forall p uint64 :: 1 <= p && p < 1<<40 && (int(p)+1)*4096 <= len(t.data) ==> GcWordR(t, p, 510) == ite(p < n, p, 0)) && ((int(n)+1)*4096 <= len(t.data) ==> GcWordR(t, n, 510) == 0)
 //@ decl var gcAnyBools [][]bool // ghost: in a frame, gcAnyBools[*][*] names every []bool array
 
@@ -602,7 +604,7 @@ package z
 //@   loop 3 modifies tailPages[*]
 //@   loop 4 invariant #prefix t.freePage == old(t.freePage) && forall j int :: 0 <= j && j <= rangeindex && j < len(tailPages) ==> tailPages[j]
 //@   loop 4 modifies t.freePage
-//@   ensures [C16] #frontier-found 1 <= t.nextPage && (forall p uint64 :: 1 <= p && p < t.nextPage ==> GcWordR(t, p, 510) != 0) && (int(t.nextPage)*4096 >= len(t.data) || GcWordR(t, t.nextPage, 510) == 0)
+//@   ensures [C16] #frontier-found 1 <= t.nextPage && int(t.nextPage)*4096 <= len(t.data) && (forall p uint64 :: 1 <= p && p < t.nextPage ==> GcWordR(t, p, 510) != 0) && ((int(t.nextPage)+1)*4096 > len(t.data) || GcWordR(t, t.nextPage, 510) == 0)
 //@   ensures [C16] #roundtrip forall n uint64 :: GcFrontierAt(t, n) ==> t.nextPage == n
 //@   ensures [C16] #marked-nodes forall i int :: 0 <= i && i < len(tailPages) && oldat("loop2", tailPages[i]) ==> tailPages[i]
 //@   ensures [C16] #marked-pointed forall j int :: 0 <= j && j < len(tailPages) && !oldat("loop2", tailPages[j]) && GcWordR(t, uint64(j)+1, 0) != 0 ==> tailPages[int(GcWordR(t, uint64(j)+1, 0))-1]
